@@ -39,8 +39,11 @@ impl<S: Runtime + 'static> Loop<'_, S> {
         while super::evaluate_condition(self.env, self.condition_command).await?
             == self.expected_condition
         {
-            self.body.execute(self.env).await?;
+            let result = self.body.execute(self.env).await;
+            // The body has run, so its exit status becomes that of the loop
+            // even if the body was interrupted by the continue built-in.
             self.exit_status = self.env.exit_status;
+            result?;
         }
         Continue(())
     }
@@ -355,6 +358,26 @@ mod tests {
         let result = command.execute(&mut env).now_or_never().unwrap();
         assert_eq!(result, Continue(()));
         assert_eq!(env.exit_status, ExitStatus(100));
+    }
+
+    #[test]
+    fn exit_status_of_while_loop_with_body_ended_by_continue() {
+        let mut env = Env::new_virtual();
+        env.builtins.insert("continue", continue_builtin());
+        env.builtins.insert("return", return_builtin());
+        env.exit_status = ExitStatus(123);
+        let command: CompoundCommand = "while return -n $(((i+=1)>2)); do
+            case $i in
+                (1) return -n 100 ;;
+                (*) continue ;;
+            esac
+        done"
+            .parse()
+            .unwrap();
+
+        let result = command.execute(&mut env).now_or_never().unwrap();
+        assert_eq!(result, Continue(()));
+        assert_eq!(env.exit_status, ExitStatus::SUCCESS);
     }
 
     #[test]
